@@ -138,13 +138,6 @@ func (c *Ctx) ruleSharedAttrWrites(rule string, pkgs []string, min int) {
 // sharedWriteException: reviewed writes into getter-obtained storage, each re-verified.
 func (c *Ctx) sharedWriteException(fn, construct string) string {
 	switch {
-	case fn == "(*internal/pkg/table.Vrf).ToGlobalPath" && strings.HasPrefix(construct, "store pkg/packet/bgp.") && strings.HasSuffix(construct, ".RD"):
-		// ingress normalisation of a path just built from an API request, before it enters any RIB
-		if c.onlyCalledFrom("(*internal/pkg/table.Vrf).ToGlobalPath", "(*pkg/server.BgpServer).fixupApiPath") &&
-			c.onlyCalledFrom("(*pkg/server.BgpServer).fixupApiPath", "(*pkg/server.BgpServer).addPathList", "(*pkg/server.BgpServer).DeletePath", "(*pkg/server.BgpServer).updatePath") &&
-			c.allCallersPassConst("(*pkg/server.BgpServer).updatePath", 1, `""`) {
-			return "sets the VRF's RD on the NLRI of a path that was just built from an API request (only reachable through fixupApiPath ← addPathList / DeletePath, i.e. API ingress; updatePath always passes an empty VRF id), before the path is inserted anywhere"
-		}
 	case (fn == "pkg/packet/bgp.NewFlowSpecUnicast" || fn == "pkg/packet/bgp.NewFlowSpecVPN") && strings.HasPrefix(construct, "mutator:sort.SliceStable"):
 		return "stable in-place sort of a FlowSpec component list that is already in strict type order (the constructors sort it when a NLRI is first built and ValidateUpdateMsg rejects received NLRI that violate the ordering), so no element moves"
 	}
